@@ -330,6 +330,36 @@ Theorem C11_source_avoid_loop_linked n N (floats : list AV.pfloat) (bw bh ml mr 
 Proof. exact (AV.gen_avoid_loop_linked n N floats bw bh ml mr c xb outer y0). Qed.
 Print Assumptions C11_source_avoid_loop_linked.
 
+(* ---- the statement `if box.style['position'] == 'relative': ...` of relative_positioning (weasyprint/layout/
+   block.py) REGENERATED from the source on every run (gen/GenRelative.v): for every value of `position`, direction
+   and pattern of auto among the used left / right / top / bottom that resolve_position_percentages leaves in the
+   box (RP.rel_box: style['position'], style['direction'] and the four offsets, anything else abstract), a
+   relatively positioned box is handed to box.translate(dx, dy) with (dx, dy) == rel_vector (the model of
+   C11_relative_vector: left, or -right when left is auto, the direction deciding when both are set; top, else
+   -bottom, else 0), and for any other position nothing happens at all (the environment is unchanged: no external
+   statement has run).  resolve_position_percentages and box.translate are external statements (RP.rel_oracle):
+   box.translate leaves the box in the state tr [box; dx; dy; ignore_floats] for whatever function tr of its
+   arguments it is, so the final state of the box says what it received. *)
+Require WV.gen.GenRelative WV.proofs.C11_gen_relative.
+Module RP := WV.proofs.C11_gen_relative.
+
+Theorem C11_source_relative_positioning O (HO : Py.ops_ok O) pos pos1 ltr0 ltr l0 r0 t0 b0 rest0
+        (l r t bo : oq) rest1 cbl ret1 ret2 tr :
+  let box0 := RP.rel_box pos ltr0 l0 r0 t0 b0 rest0 in
+  let box1 := RP.rel_box pos1 ltr (RP.vo l) (RP.vo r) (RP.vo t) (RP.vo bo) rest1 in
+  let rho0 := [("box"%string, box0); ("containing_block"%string, Py.VList cbl)] in
+  Py.run (Py.with_calls O (RP.rel_oracle ret1 box1 ret2 tr)) GenRelative.relative_if_body rho0
+    (fun rho res =>
+       res = None /\
+       if RP.is_relative pos
+       then exists dx dy, dx == fst (rel_vector ltr (l, r, t, bo)) /\ dy == snd (rel_vector ltr (l, r, t, bo)) /\
+                          Py.lookup "box" rho = tr [box1; Py.VNum dx; Py.VNum dy; Py.VBool false] /\
+                          Py.lookup "%call" rho = ret2
+       else rho = rho0)
+    (fun _ => False).
+Proof. exact (RP.gen_relative_if O HO pos pos1 ltr0 ltr l0 r0 t0 b0 rest0 l r t bo rest1 cbl ret1 ret2 tr). Qed.
+Print Assumptions C11_source_relative_positioning.
+
 (* ------------------------------------------------------------- floats met inside a line box (inline.py) *)
 (* hand-written model of the waiting-float queue (model/C11Queue.v), tied to the source by the render stream
    inline-float-queue of harness/p_c11.py *)
